@@ -8,7 +8,7 @@ cp $H $S/h.go
 cat > $S/ov.json <<EOT
 {"Replace": {"/repo/$REL/zz_verif_prelude.go": "$S/prelude.go", "/repo/$REL/zz_verif_h.go": "$S/h.go"}}
 EOT
-timeout ${TMO:-120} /verif/bin/symgo -dir /repo -overlay $S/ov.json -pkg ./$REL -entry github.com/inspirer/textmapper/$REL.$ENTRY -out $S/out.json "$@"
+timeout ${TMO:-300} /verif/bin/symgo -dir /repo -overlay $S/ov.json -pkg ./$REL -entry github.com/inspirer/textmapper/$REL.$ENTRY -out $S/out.json "$@"
 echo exit=$?
 python3 - <<EOT
 import json
